@@ -28,7 +28,7 @@ Fresh(e) ==
      fs |-> [ents |-> e.snap.ents, inos |-> e.snap.inos],
      fds |-> <<>>, dirty |-> {}, syncfail |-> {}, pubs |-> <<>>, supplied |-> {}, planted |-> {},
      cur |-> <<>>, steps |-> <<>>, listed |-> <<>>, tlisted |-> <<>>, created |-> <<>>, opfds |-> <<>>, opens |-> <<>>,
-     faulted |-> <<>>, faultcall |-> <<>>, unlinkfailed |-> <<>>, prune |-> <<>>,
+     faulted |-> <<>>, faultcall |-> <<>>, unlinkfailed |-> <<>>, prune |-> <<>>, lastset |-> <<>>, lastok |-> <<>>, maybeset |-> <<>>,
      viol |-> {}, fsmis |-> {}, nsys |-> 0]
 
 InitSt == Fresh([job |-> "", run |-> 0, gran |-> 0, atime |-> "relatime", snap |-> EmptyFS])
@@ -115,11 +115,23 @@ CallStep(s, e) ==
 
 GoneStep(s, e) == [s EXCEPT !.fds = Del(@, e.p)]
 
+RetStep(s, e) ==
+    LET s1 == [s EXCEPT !.lastok = Put(@, e.p, e.ok)] IN
+    IF e.p \in DOMAIN s.cur /\ Has(s.cur[e.p], "val") /\ Has(s.cur[e.p], "key") THEN
+        LET k == s.cur[e.p].key v == s.cur[e.p].val
+            isset == e.api \in {"set", "set_tf"} \/ (e.api = "gou" /\ Has(s.cur[e.p], "judge") /\ s.cur[e.p].judge = "replace")
+        IN
+        IF isset /\ e.ok THEN [s1 EXCEPT !.lastset = Put(@, k, v), !.maybeset = Put(@, k, {})]
+        \* a failed set, or an insert-if-absent (put / ensure / promote), may or may not have stored its value
+        ELSE [s1 EXCEPT !.maybeset = Put(@, k, Get(@, k, {}) \cup {v})]
+    ELSE s1
+
 Step(s, e) ==
     IF e.e = "sys" THEN SysStep(s, e)
     ELSE IF e.e \in {"crash", "age", "advdel", "mark"} THEN ExtStep(s, e)
     ELSE IF e.e = "call" THEN CallStep(s, e)
     ELSE IF e.e \in {"gone", "frozen"} THEN GoneStep(s, e)
+    ELSE IF e.e = "ret" THEN RetStep(s, e)
     ELSE s
 
 \* ---- monitors -------------------------------------------------------------
@@ -136,7 +148,8 @@ Violations(s, e, s2) ==
         stateChanged == s2.fs # s.fs \/ e.e = "call"
     IN
     (IF stateChanged THEN Mon("DirValid", DirValid(cfg, s2)) \cup Mon("DebrisConfined", DebrisConfined(cfg, s2)) ELSE {})
-    \cup (IF e.e = "obs" THEN Mon("HandleContentOK", HandleContentOK(s, e)) \cup Mon("HandleModeOK", HandleModeOK(s, e)) ELSE {})
+    \cup (IF e.e = "obs" THEN Mon("HandleContentOK", HandleContentOK(s, e)) \cup Mon("HandleModeOK", HandleModeOK(s, e))
+                               \cup Mon("ReadsLastSet", ReadsLastSet(s, e)) ELSE {})
     \cup (IF isSys \/ e.e \in {"crash", "age", "advdel"} THEN
               Mon("Immutable", ImmutableStep(s, e, s2)) \cup Mon("ROUntouched", ROUntouched(cfg, s, e, s2))
               \cup Mon("DotFilesUntouched", DotFilesUntouched(cfg, s, e, s2))
